@@ -922,7 +922,7 @@ def oracle(case, out):
             g = sv.get("body")
             bad.append(("req-body", f"handler read {None if g is None else len(g)} bytes, client sent {len(want)}"
                                     + ("" if g is None else f" (first difference at {first_diff(g, want)})")))
-        elif kind == "json" and (sv.get("body") is None or json.loads(sv["body"]) != want):
+        elif kind == "json" and (sv.get("body") is None or _loads(sv["body"]) != want):
             bad.append(("req-body", "JSON body differs"))
     elif mode == "text":
         if kind == "bytes" and (sv.get("text") is None or sv["text"].encode("utf-8") != want):
@@ -1024,6 +1024,13 @@ def oracle(case, out):
     return bad
 
 
+def _loads(b):
+    try:
+        return json.loads(b)
+    except ValueError:
+        return ("<not JSON>", bytes(b[:40]))
+
+
 def first_diff(a: bytes, b: bytes):
     n = min(len(a), len(b))
     for i in range(n):
@@ -1051,28 +1058,18 @@ def plain_keepalive(case):
 # known-finding signatures
 
 def _is_head_stream(case):
-    """HEAD answered by a StreamResponse whose last piece is handed to write_eof(data) (the write() path
-    was repaired by 1a48374; write_eof(data) still puts the bytes on the wire)."""
+    """HEAD answered by a StreamResponse whose last piece is handed to write_eof(data) (fixed by eef6721; kept as a
+    named family for the corpus and the distribution)."""
     rq, rs = case.get("req") or {}, case.get("resp") or {}
     ps = [p for p in (rs.get("pieces") or [])]
     return (rq.get("method", "").upper() == "HEAD" and rs.get("kind") == "stream" and not rs.get("no_write")
             and bool(rs.get("eof_with_data")) and bool(ps) and ps[-1] > 0)
 
 
-def _is_none_body_compress(case):
-    rs = case.get("resp") or {}
-    return rs.get("kind") == "fixed" and bool(rs.get("none_body")) and rs.get("compression") not in (None, "identity")
-
-
 def _sig_h10_close_delimited(case, params):
     rq = case.get("req") or {}
     return (case.get("viol") == "hang" and rq.get("version") == "1.0" and not wants_close(case)
-            and resp_without_length(case) and not rq.get("expect100") and rq.get("chunked") is not False)
-
-
-def _sig_chunked_false(case, params):
-    rq = case.get("req") or {}
-    return rq.get("chunked") is False
+            and resp_without_length(case) and not rq.get("expect100"))
 
 
 DESYNC = ("hang", "stall", "reuse", "second-response", "second-exception", "second-hang", "server-error-log",
@@ -1081,34 +1078,12 @@ DESYNC = ("hang", "stall", "reuse", "second-response", "second-exception", "seco
 
 def _sig_h10_expect(case, params):
     rq = case.get("req") or {}
-    return (case.get("viol") in DESYNC and rq.get("version") == "1.0" and bool(rq.get("expect100"))
-            and rq.get("chunked") is not False)
-
-
-def _sig_expect_unsent_body(case, params):
-    """HTTP/1.1, Expect: 100-continue, the handler answers without reading the body: the final response can be
-    complete before the body writer resumed; the writer is cancelled while still waiting for the 100 and the
-    connection goes back to the pool with the announced body unsent."""
-    rq, rs = case.get("req") or {}, case.get("resp") or {}
-    return (case.get("viol") in DESYNC and rq.get("version", "1.1") == "1.1" and bool(rq.get("expect100"))
-            and rs.get("read") == "none" and rq.get("chunked") is not False)
-
-
-def _sig_head_stream(case, params):
-    return _is_head_stream(case) and case.get("viol") in DESYNC + ("client-exception",) and (case.get("req") or {}).get("chunked") is not False
-
-
-def _sig_none_body_compress(case, params):
-    return _is_none_body_compress(case) and case.get("viol") in ("client-exception", "server-error-log")
+    return case.get("viol") in DESYNC and rq.get("version") == "1.0" and bool(rq.get("expect100"))
 
 
 SIGNATURES = {
     "h10_keepalive_close_delimited_hang": _sig_h10_close_delimited,
-    "client_chunked_false": _sig_chunked_false,
     "h10_expect_continue": _sig_h10_expect,
-    "expect_body_unsent_reuse": _sig_expect_unsent_body,
-    "head_write_eof_data_on_wire": _sig_head_stream,
-    "none_body_compression_assert": _sig_none_body_compress,
 }
 
 
@@ -1256,6 +1231,8 @@ def gen_req(rng):
             rq["headers"] = [h for h in rq["headers"] if h[0].lower() != "content-type"]
         if k not in ("json",) and rng.random() < 0.12 and not any(h[0].lower() == "content-length" for h in rq["headers"]):
             rq["chunked"] = True
+        elif rng.random() < 0.06:
+            rq["chunked"] = False         # "don't use chunked encoding": Content-Length when the size is known
         if k in ("bytes", "str", "agen", "bytesio", "bytearray") and rng.random() < 0.15 and rq.get("chunked") is None:
             if b.get("size", 1) > 0:
                 rq["compress"] = rng.choice(("deflate", "gzip", True))
@@ -1263,6 +1240,8 @@ def gen_req(rng):
             rq["expect100"] = True
     elif rng.random() < 0.03:
         rq["expect100"] = True
+    elif rng.random() < 0.03:
+        rq["chunked"] = False
     if rng.random() < 0.04:
         rq["skip_auto"] = rng.sample(["User-Agent", "Accept", "Accept-Encoding", "Content-Type"], rng.randint(1, 2))
         if (rq.get("body") or {}).get("kind") in ("json", "form", "multipart", "str", "stringio"):
@@ -1366,7 +1345,7 @@ def gen_case(rng):
 
 
 def special_cases(rng):
-    """Deliberate corners: expected refusals and the known-finding families (kept rare)."""
+    """Deliberate corners: expected refusals, the open known-finding families and the repaired ones (kept rare)."""
     seg = lambda: {"seed": rng.getrandbits(24), "c2s": gen_seg(rng, False), "s2c": gen_seg(rng, False)}  # noqa: E731
     body = lambda n: {"kind": "bytes", "pat": "text", "size": n, "seed": 1}  # noqa: E731
     ok = {"kind": "fixed", "status": 200, "headers": [], "body": {"pat": "text", "size": 5, "seed": 0}, "read": "read"}
@@ -1382,7 +1361,7 @@ def special_cases(rng):
         # refusal by the server API: chunked encoding on HTTP/1.0 -> RuntimeError in prepare() -> 500
         {"req": {"method": "GET", "path": "/r", "headers": [], "version": "1.0"},
          "resp": dict(stream, chunked=True), "seg": seg(), "expect": {"status": 500, "server_error": True}},
-        # known-finding families
+        # open known-finding families (first and third), repaired family (chunked=False)
         {"req": {"method": "GET", "path": "/kf", "headers": [], "version": "1.0"}, "resp": stream, "seg": seg()},
         {"req": {"method": "POST", "path": "/kf", "headers": [], "body": body(rng.choice((1, 3, 100))), "chunked": False}, "resp": ok, "seg": seg()},
         {"req": {"method": "POST", "path": "/kf", "headers": [], "version": "1.0", "body": body(3), "expect100": True}, "resp": ok, "seg": seg()},
@@ -1528,7 +1507,7 @@ def in_model_subset(case):
     generator pieces; no cookies, compression, Expect, skip_auto_headers; chunked None or True."""
     rq = case["req"]
     b = rq.get("body") or {"kind": "none"}
-    if rq.get("compress") or rq.get("expect100") or rq.get("chunked") is False or rq.get("cookies") or rq.get("skip_auto"):
+    if rq.get("compress") or rq.get("expect100") or rq.get("cookies") or rq.get("skip_auto"):
         return False
     if b["kind"] not in ("none", "bytes", "bytearray", "memoryview", "agen", "bytesio"):
         return False
@@ -1629,9 +1608,7 @@ def in_resp_subset(case):
     rq, rs = case["req"], case["resp"]
     if rs["kind"] != "stream" or rs.get("compression") or case.get("expect") or rq.get("expect100"):
         return False
-    if case.get("cread", "read") == "none" or rq.get("chunked") is False:
-        return False
-    if _is_head_stream(case):         # open finding: body bytes follow the HEAD head and disturb the client
+    if case.get("cread", "read") == "none":
         return False
     if rs.get("read", "read") == "none" and (rq.get("body") or {"kind": "none"})["kind"] != "none":
         return False
@@ -1711,10 +1688,8 @@ def replay(ctx, case):
     finally:
         bed.close()
     res = {"violates": bool(bad), "violations": [f"{k}: {m}" for k, m in bad], "observed": summarize(out)}
-    # the model's view of the same request, when it is of the modelled shape (chunked=False included)
-    probe = json.loads(json.dumps(case))
-    probe["req"]["chunked"] = None if probe["req"].get("chunked") is False else probe["req"].get("chunked")
-    if in_model_subset(probe) and out["client"].get("c2s_len") is not None and "url_target" in out["client"]:
+    # the model's view of the same request, when it is of the modelled shape
+    if in_model_subset(case) and out["client"].get("c2s_len") is not None and "url_target" in out["client"]:
         try:
             ok, exe = build_model()
             if ok:
